@@ -125,7 +125,243 @@ def run(driver):
                 note("GeneAttributes", "%s: generated %r != live %r" % (k, got, v))
     except Exception as ex:
         note("GeneAttributes", "cross-check could not run: %s: %s" % (type(ex).__name__, ex))
+    for table in ("Loops", "LoopsCigar"):
+        if not _wanted(table):
+            continue
+        try:
+            for msg in check_loops(driver, cm, table):
+                note(table, msg)
+        except Exception as ex:   # a crash of the self-check is a failed self-check, not a crash of the run
+            note(table, "self-check of Gen/%s.lean could not run: %s: %s" % (table, type(ex).__name__, ex))
     return bad
+
+
+# ---------------------------------------------------------------------------------------------------
+# Gen/Loops.lean: every translated loop function, executed through the driver (ops Gen.<name>), against the live
+# Python function it was translated from -- exhaustive small universes (malformed lists included) + seeded random
+# large instances.  Error (`none`) must coincide with "the Python function raises".
+
+LOOP_STATS = {}
+
+
+def _wanted(table):
+    """the loop self-check costs ~10 s: run it only for the checks whose GEN_DEPS name the table (all tables when the
+    property cannot be determined)"""
+    import sys
+    try:
+        if "--property" in sys.argv:
+            prop = sys.argv[sys.argv.index("--property") + 1]
+            mod = importlib.import_module("props." + prop)
+            return table in getattr(mod, "GEN_DEPS", [])
+    except Exception:
+        pass
+    return True
+
+
+def _small_lists(maxc, maxlen):
+    import itertools
+    ivs = [(a, b) for a in range(maxc + 1) for b in range(maxc + 1)]      # includes ill-formed (a > b)
+    res = [[]]
+    for n in range(1, maxlen + 1):
+        res += [list(c) for c in itertools.product(ivs, repeat=n)]
+    return res
+
+
+def _cigar_inputs(params, rng, quick):
+    """inputs of the CIGAR walkers: parameter `cigar_tuples` = (code, length) pairs, `blocks` = the M/=/X blocks pysam
+    would report for that CIGAR (or unrelated lists), `ref_start` = small ints incl. -1 and 0"""
+    import itertools
+    codes = [0, 1, 2, 3, 4, 5, 7, 9]            # M I D N S H = and an invalid code
+    names = [p for p, _ in params]
+
+    def blocks_of(cig, start):
+        pos, out = start, []
+        for c, n in cig:
+            if c in (0, 7, 8):
+                out.append((pos, pos + n))
+                pos += n
+            elif c in (2, 3):
+                pos += n
+        return out
+
+    def args_for(cig):
+        a = []
+        for p in names:
+            if p == "cigar_tuples":
+                a.append([tuple(x) for x in cig])
+            elif p == "blocks":
+                b = blocks_of(cig, rng.choice([0, 5, 100]))
+                r = rng.random()
+                if r < 0.1 and b:
+                    b = b[:-1]
+                elif r < 0.15:
+                    b = b + [(1000, 1001)]
+                a.append(b)
+            elif p == "ref_start":
+                a.append(rng.choice([-1, 0, 0, 7, 1000, rng.randint(0, 10 ** 6)]))
+            else:
+                raise ValueError(p)
+        return tuple(a)
+
+    cases = []
+    ops = [(c, n) for c in codes for n in (1, 2)]
+    small = [[]]
+    for k in (1, 2, 3):
+        small += [list(c) for c in itertools.product(ops, repeat=k)]
+    if quick:
+        small = small[:1 + 16 + 256] + rng.sample(small[1 + 16 + 256:], 3000)
+    cases += [args_for(c) for c in small]
+    n_small = len(cases)
+    for _ in range(2000 if quick else 8000):
+        k = rng.randint(1, 30)
+        cig = [(rng.choice([0, 0, 0, 1, 2, 3, 3, 4, 5, 7, 8] + ([9] if rng.random() < 0.03 else [])),
+                rng.choice([1, 2, 5, 30, 1000])) for _ in range(k)]
+        cases.append(args_for(cig))
+    return cases, n_small
+
+
+def _loop_inputs(params, rng, quick):
+    """list of argument tuples for a parameter signature"""
+    import itertools
+    from gen import intervals as G
+    if any(p == "cigar_tuples" for p, _ in params):
+        return _cigar_inputs(params, rng, quick)
+    tys = [t for _, t in params]
+    nlist = sum(1 for t in tys if t == "ListIv")
+    cases = []
+    if nlist == 1:
+        small = _small_lists(3, 2) + [l for l in G.all_sd_lists(6, 3)]
+        ints = list(range(-2, 8))
+    else:
+        small = _small_lists(2, 2) + rng.sample(G.all_sd_lists(6, 3), 60)
+        ints = list(range(-1, 5))
+    pools = [small if t == "ListIv" else ints if t == "Int" else [(a, b) for a in range(0, 4) for b in range(0, 4)]
+             for t in tys]
+    allc = 1
+    for p in pools:
+        allc *= len(p)
+    cap = 12000 if quick else 60000
+    if allc <= cap:
+        cases += list(itertools.product(*pools))
+    else:
+        cases += [tuple(rng.choice(p) for p in pools) for _ in range(cap)]
+    n_small = len(cases)
+    for _ in range(1500 if quick else 6000):
+        base = G.rand_sd_list(rng, rng.randint(1, 40), 10 ** rng.choice([3, 6, 9]))
+        args = []
+        for t in tys:
+            if t == "ListIv":
+                l = base if rng.random() < 0.4 else G.perturb(rng, base)
+                r = rng.random()
+                if r < 0.05:
+                    l = list(l)
+                    rng.shuffle(l)
+                elif r < 0.08:
+                    l = []
+                args.append([tuple(x) for x in l])
+            elif t == "Int":
+                args.append(G.rand_point(rng, base) if rng.random() < 0.9 else rng.choice([-1, 0, 1]))
+            elif t == "Iv":
+                args.append((base[0][0] + rng.choice([-3, 0, 3]), base[-1][1] + rng.choice([-3, 0, 3])))
+            else:
+                raise ValueError(t)
+        cases.append(tuple(args))
+    return cases, n_small
+
+
+class _Hang(Exception):
+    pass
+
+
+class _time_limit:
+    """wall-clock limit for one call of the live function (main thread only; no-op elsewhere)"""
+
+    def __init__(self, seconds):
+        self.seconds = seconds
+        self.armed = False
+
+    def __enter__(self):
+        import signal
+        import threading
+        if threading.current_thread() is threading.main_thread():
+            def onalarm(signum, frame):
+                raise _Hang()
+            self.old = signal.signal(signal.SIGALRM, onalarm)
+            signal.setitimer(signal.ITIMER_REAL, self.seconds)
+            self.armed = True
+        return self
+
+    def __exit__(self, *a):
+        if self.armed:
+            import signal
+            signal.setitimer(signal.ITIMER_REAL, 0)
+            signal.signal(signal.SIGALRM, self.old)
+        return False
+
+
+def check_loops(driver, cm, table="Loops"):
+    import json
+    import os
+    import random
+    msgs = []
+    info_path = os.path.join(vlib.LEAN, "IsoVerif", "Gen", "gen_info.json")
+    with open(info_path) as f:
+        rep = json.load(f)
+    if table in rep.get("errors", {}):
+        return ["translation failed, Gen/%s.lean is stale: %s" % (table, rep["errors"][table])]
+    fns = rep.get("info", {}).get(table, {}).get("functions", {})
+    if not fns:
+        return ["no translated loop functions recorded in gen_info.json"]
+    import sys
+    quick = os.environ.get("VERIF_TIER", "quick") != "thorough" and "thorough" not in sys.argv   # vcheck --tier thorough
+    rng = random.Random(int(os.environ.get("VERIF_SEED", "20260926")) + 19)
+    LOOP_STATS.setdefault("functions", {})
+    for name, meta in fns.items():
+        params = [tuple(p) for p in meta["params"]]
+        pyfn = getattr(cm, name, None)
+        if pyfn is None:
+            msgs.append("%s: no such function in src.common" % name)
+            continue
+        cases, n_small = _loop_inputs(params, rng, quick)
+        if meta.get("inf"):      # math.inf is an arbitrary integer parameter of the generated function
+            reqs = [vlib.req("Gen." + name, inf_=rng.choice([0, 1, -7, 10 ** 12, -10 ** 12, rng.randint(-50, 50)]),
+                             **{p: vlib.canon(a) for (p, _), a in zip(params, args)}) for args in cases]
+        else:
+            reqs = [vlib.req("Gen." + name, **{p: vlib.canon(a) for (p, _), a in zip(params, args)}) for args in cases]
+        outs = driver.run(reqs)
+        st = {"cases": len(cases), "exhaustive_small": n_small, "errors_both": 0, "values": 0, "mismatches": 0}
+        for args, got in zip(cases, outs):
+            try:
+                with _time_limit(2.0):
+                    exp = pyfn(*[list(a) if isinstance(a, list) else a for a in args])
+                raised = None
+            except (IndexError, AssertionError, ZeroDivisionError, TypeError, ValueError) as ex:
+                exp, raised = None, type(ex).__name__
+            except _Hang:
+                # the live loop did not terminate (possible on malformed lists, e.g. the binary searches): the generated
+                # function must have run out of fuel (`none`)
+                exp, raised = None, "no termination within 2 s"
+                st["hangs"] = st.get("hangs", 0) + 1
+            is_err = isinstance(got, dict) and "error" in got
+            ok = False
+            if isinstance(got, dict) and "driver_error" in got:
+                ok = False
+            elif raised is not None or is_err:
+                ok = raised is not None and is_err
+                st["errors_both"] += 1 if ok else 0
+            elif meta["ret"] == "Frac":
+                ok = isinstance(got, list) and got[1] != 0 and abs(exp - got[0] / got[1]) <= 1e-9 * max(1.0, abs(exp))
+            else:
+                ok = vlib.canon(exp) == got
+            if ok and raised is None:
+                st["values"] += 1
+            if not ok:
+                st["mismatches"] += 1
+                if st["mismatches"] <= 2:
+                    msgs.append("%s%s: generated %s != live %s" % (name, json.dumps(vlib.canon(list(args)))[:200], json.dumps(got)[:120],
+                                                                     raised or json.dumps(vlib.canon(exp))[:120]))
+        LOOP_STATS["functions"][name] = st
+    return msgs
 
 
 ATTR_CANDIDATES = ["gene_id", "transcript_id", "ID", "Parent", "level", "exons", "Canonical", "exon", "exon_id", "exon_number",
